@@ -206,6 +206,8 @@ func ontErrClass(err error) string {
 		return "reject:badkey"
 	case strings.Contains(m, "VerifyMultiSignature error"):
 		return "reject:sig"
+	case strings.Contains(m, "had been initialized"):
+		return "reject:initialized"
 	case strings.Contains(m, "unmarshal blockInfo"):
 		return "reject:payload"
 	case strings.Contains(m, "GetSideChain") || strings.Contains(m, "VerifyOntTx error"):
@@ -224,6 +226,17 @@ func (f *ontFam) trackedAt(h uint32) (map[string]bool, bool) {
 	}
 	peers, ok := f.peersAt(kh)
 	return peers, ok
+}
+
+// anyHeader: is a header stored for any height touched in this case?
+func (f *ontFam) anyHeader() (uint32, bool) {
+	ns := newNative(f.db, nil)
+	for h := range f.seenH {
+		if _, err := ont.GetHeaderByHeight(ns, ontChainID, h); err == nil {
+			return h, true
+		}
+	}
+	return 0, false
 }
 
 func (f *ontFam) peersAt(kh uint32) (map[string]bool, bool) {
@@ -307,7 +320,12 @@ func (f *ontFam) Exec(r *hx.Run, op []string) string {
 			r.Viol("C24:ont-genesis-without-operator-witness", "SyncGenesisHeader accepted a transaction that is not witnessed by the consensus operator")
 		}
 		f.seenH[uint32(h64)] = true
-		return ontErrClass(ont.NewONTHandler().SyncGenesisHeader(newNative(f.db, ps.Bytes())))
+		_, hadAny := f.anyHeader()
+		res := ontErrClass(ont.NewONTHandler().SyncGenesisHeader(newNative(f.db, ps.Bytes())))
+		if res == "ok" && hadAny {
+			r.Viol("C31:ont-genesis:second-genesis-accepted", "SyncGenesisHeader installed a header / peer set although headers were already stored")
+		}
+		return res
 	case "hdr":
 		if len(op) != 6 {
 			return "bad-op"
@@ -656,7 +674,9 @@ func (f *ontFam) genMsg(r *hx.Run) {
 			if r.Rng.Chance(1, 3) {
 				n2 := 1 + r.Rng.Intn(10)
 				tracked2 = r.Rng.Perm(ontPool)[:n2]
-				r.Do(fmt.Sprintf("genesis %d %s", g2, idxList(tracked2)))
+				// the second epoch is installed by a configuration-changing header signed by the first epoch's set
+				b0, s0, _ := signerShape(r, tracked, 2)
+				r.Do(fmt.Sprintf("hdr %d 1 %s %s %s", g2, idxList(tracked2), idxList(b0), s0))
 			}
 			h := g
 			for shape := 0; shape < nShapes; shape++ {
@@ -685,6 +705,14 @@ func (f *ontFam) genMsg(r *hx.Run) {
 						r.Sample(map[string]interface{}{"tracked": cur, "shape": label, "bookkeepers": bks, "sigs": sigs, "height": h, "outcome": res})
 					}
 				}
+			}
+			if tracked2 != nil { // exactly at the second key height: still the first epoch's set
+				b2, s2, _ := signerShape(r, tracked2, 2)
+				res := r.Do(fmt.Sprintf("msg %d %s %s", g2, idxList(b2), s2))
+				r.Nontrivial(fmt.Sprintf("%d/at-keyheight-new-set/msg/%s", len(tracked2), res))
+				b1, s1, _ := signerShape(r, tracked, 2)
+				res = r.Do(fmt.Sprintf("msg %d %s %s", g2, idxList(b1), s1))
+				r.Nontrivial(fmt.Sprintf("%d/at-keyheight-old-set/msg/%s", len(tracked), res))
 			}
 			// replay of a stored height: must be skipped whatever the signer list is
 			r.Do(fmt.Sprintf("msg %d - -", h))
@@ -844,13 +872,26 @@ func (f *ontFam) genHdr(r *hx.Run) {
 					ns := r.Rng.Perm(ontPool)[:1+r.Rng.Intn(10)]
 					res := r.Do(fmt.Sprintf("genesis %d %s", h, idxList(ns)))
 					rec("second-genesis", res, len(ns))
-					used[h] = true
-					epochs = append(epochs, epoch{h, ns})
+					if res == "ok" {
+						used[h] = true
+						epochs = append(epochs, epoch{h, ns})
+					}
 				case step == nShapes+11: // cross-chain messages choose their set the same way
 					h := fresh(g+1, top()+20)
 					set, _ := inForce(h)
 					bks, sigs, _ := signerShape(r, set, 0)
 					rec("msg-right-set", r.Do(fmt.Sprintf("msg %d %s %s", h, idxList(bks), sigs)), len(set))
+					// a message exactly AT a key height belongs to the epoch below it, not to the set recorded there
+					if len(epochs) > 1 {
+						e := epochs[1+r.Rng.Intn(len(epochs)-1)]
+						if below, ok := inForce(e.h); ok {
+							at, _ := inForce(e.h + 1)
+							b2, s2, _ := signerShape(r, at, 2)
+							rec("msg-at-keyheight-new-set", r.Do(fmt.Sprintf("msg %d %s %s", e.h, idxList(b2), s2)), len(at))
+							b1, s1, _ := signerShape(r, below, 2)
+							rec("msg-at-keyheight-old-set", r.Do(fmt.Sprintf("msg %d %s %s", e.h, idxList(b1), s1)), len(below))
+						}
+					}
 				default:
 					h := fresh(g+1, top()+20)
 					set, _ := inForce(h)
